@@ -66,6 +66,7 @@ func init() {
 		fs := flag.NewFlagSet("cbor-decode-sweep", flag.ExitOnError)
 		out := fs.String("out", "", "results JSON")
 		table := fs.String("table", "", "TLC verdict table (JSON list of BEHAVIOUR objects of Cbor_Tab.tla)")
+		nest := fs.String("nest", "", "output of Cbor_Nest.tla (JSON list of BEHAVIOUR objects): schemas of the targets and nested-item cases")
 		tier := fs.String("tier", os.Getenv("VERIF_TIER"), "quick | thorough")
 		seed := fs.Int64("seed", 1, "seed")
 		workers := fs.Int("workers", runtime.NumCPU(), "child processes")
@@ -108,7 +109,7 @@ func init() {
 			return 2
 		}
 		defer os.RemoveAll(dir)
-		res, err := cborx.RunSweep(cborx.SweepOpts{Tier: *tier, Seed: *seed, Table: *table, Out: *out, Workers: *workers,
+		res, err := cborx.RunSweep(cborx.SweepOpts{Tier: *tier, Seed: *seed, Table: *table, Nest: *nest, Out: *out, Workers: *workers,
 			Sample3: *sample3, NSeeded: *nseeded, Self: self, Dir: dir})
 		if err != nil {
 			fmt.Fprintln(os.Stderr, err)
